@@ -233,6 +233,9 @@ pub struct MonC {
     pub choked: bool,
     pub chokes: usize,
     pub stored: Vec<bool>,
+    /// The peer's own interest in us: I (Interested) and N (NotInterested), once each, at any point.
+    pub said_i: bool,
+    pub said_n: bool,
 }
 
 impl Scenario for TilingChoke {
@@ -253,6 +256,12 @@ impl Scenario for TilingChoke {
             return vec![];
         }
         let mut e = vec![];
+        if !mon.said_i {
+            e.push("I".to_string());
+        }
+        if !mon.said_n {
+            e.push("N".to_string());
+        }
         if mon.choked {
             e.push("U".to_string());
             e.extend((0..mon.late.len()).map(|k| format!("L{}", k)));
@@ -268,6 +277,8 @@ impl Scenario for TilingChoke {
         match &sym[..1] {
             "U" => vec![Ev::Feed(0, refwire::encode(&Msg::Unchoke))],
             "C" => vec![Ev::Feed(0, refwire::encode(&Msg::Choke))],
+            "I" => vec![Ev::Feed(0, refwire::encode(&Msg::Interested))],
+            "N" => vec![Ev::Feed(0, refwire::encode(&Msg::NotInterested))],
             "A" => {
                 let r = mon.outstanding[sym[1..].parse::<usize>().unwrap()];
                 vec![Ev::Feed(0, refwire::encode(&Msg::Piece(r.0, r.1, block_bytes(&w.t, &r))))]
@@ -310,6 +321,8 @@ impl Scenario for TilingChoke {
                 accepted = Some(r);
             }
             Some(("L", s)) => late_fed = Some(mon.late.remove(s[1..].parse::<usize>().unwrap())),
+            Some(("I", _)) => mon.said_i = true,
+            Some(("N", _)) => mon.said_n = true,
             _ => {}
         }
         // the last outstanding block of the piece arrived: judged before the requests for the next piece
@@ -386,7 +399,7 @@ impl Scenario for TilingChoke {
         None
     }
     fn key(&self, w: &World, mon: &MonC) -> String {
-        format!("{} out={:?} late={:?} cur={:?} req={:?} ans={} choked={} chokes={}", w.default_key(), mon.outstanding, mon.late, mon.cur, mon.requested, mon.answered_bytes, mon.choked, mon.chokes)
+        format!("{} out={:?} late={:?} cur={:?} req={:?} ans={} choked={} chokes={}", w.default_key(), mon.outstanding, mon.late, mon.cur, mon.requested, mon.answered_bytes, mon.choked, mon.chokes) + &format!(" i={} n={}", mon.said_i, mon.said_n)
     }
 }
 
@@ -660,7 +673,7 @@ pub fn run(ctx: &Ctx) -> Outcome {
     explore::stats_outcome(&total, &mut o);
     o.set("block_lists_enumerated", json!(enumerated));
     o.set("scenarios", Value::Array(per));
-    o.set("rule", json!("E-ENUM: PieceRx::left(n) for every n in 1..=81921. E-SYS: per piece length in [1,16383,16384,16385,32768,32769,49153] a 2-piece torrent (second piece = short last piece of 5 bytes); events A<k> = correct answer to the k-th outstanding request, D = duplicate of the last answered block; BFS over all histories until both pieces are complete (depth <= 14); a state = canonical snapshot of manager + handler + files + outstanding set. Mind-changing peer (tiling-<len>-mind12): 12 pieces (outside end game), the peer advertises piece 0 only and may, while it is being fetched, send the same Bitfield again (B), Have(1) (H) and a Request of its own for a piece the client lacks (Q, refused): requests must not name another piece while the current one is only partly requested. Choking peer (tiling-choke-<len>): one connection, 2 pieces; C = the peer chokes (at most twice, at any point of the piece), U = it unchokes again, A<k> as above, L<k> = the answer to a request that was outstanding when it choked arrives behind the Choke, in any order; a choke ends the fetch (the manager gives the piece free), so while choked no request may be written and no late block may complete a piece; after the unchoke the newly assigned piece is tiled from the start, same obligations. Two-connection scenarios (tiling2-<len>): 3 pieces of <len> bytes, two connections (end game, so both may be asked for the same piece and the slower one is cancelled and re-assigned), events U<k> unchoke, V<k> one repeated unchoke, X<k> loss of a connection, A<k>:<j> correct answer to the j-th outstanding request of connection k, every chooser tie-break; the same tiling / follow-up / completion obligations per assignment, plus: no connection waits for a block already delivered, requested blocks are tracked."));
+    o.set("rule", json!("E-ENUM: PieceRx::left(n) for every n in 1..=81921. E-SYS: per piece length in [1,16383,16384,16385,32768,32769,49153] a 2-piece torrent (second piece = short last piece of 5 bytes); events A<k> = correct answer to the k-th outstanding request, D = duplicate of the last answered block; BFS over all histories until both pieces are complete (depth <= 14); a state = canonical snapshot of manager + handler + files + outstanding set. Mind-changing peer (tiling-<len>-mind12): 12 pieces (outside end game), the peer advertises piece 0 only and may, while it is being fetched, send the same Bitfield again (B), Have(1) (H) and a Request of its own for a piece the client lacks (Q, refused): requests must not name another piece while the current one is only partly requested. Choking peer (tiling-choke-<len>): one connection, 2 pieces; C = the peer chokes (at most twice, at any point of the piece), U = it unchokes again, A<k> as above, L<k> = the answer to a request that was outstanding when it choked arrives behind the Choke, in any order, I / N = the peer declares / withdraws its own interest in us (once each, at any point); a choke ends the fetch (the manager gives the piece free), so while choked no request may be written and no late block may complete a piece; after the unchoke the newly assigned piece is tiled from the start, same obligations. Two-connection scenarios (tiling2-<len>): 3 pieces of <len> bytes, two connections (end game, so both may be asked for the same piece and the slower one is cancelled and re-assigned), events U<k> unchoke, V<k> one repeated unchoke, X<k> loss of a connection, A<k>:<j> correct answer to the j-th outstanding request of connection k, every chooser tie-break; the same tiling / follow-up / completion obligations per assignment, plus: no connection waits for a block already delivered, requested blocks are tracked."));
     o.assume("one connection, honest payloads (corrupt ones are C01's subject), tie-breaks of the piece chooser fixed to the identity shuffle");
     o
 }
